@@ -461,11 +461,19 @@ def gen_dtor(rng):
     elif z < 0.92: ops = [('remove', B)]
     else: ops = [('sink', 2, 0), ('log', tB, B, m()), ('drop', 1), ('remove', B), ('count',)]
     if withC and r.random() < 0.3: ops.insert(r.randrange(len(ops) + 1), ('log', r.choice(others), C, m()))
+    pre = []
+    if withC and r.random() < 0.25:
+        # B is already removed (and drained) when the pass starts; inside the pass - A's sink dying - another thread logs
+        # through the valid logger C: the queues are not empty when the pass reaches B, which must be retried by a later
+        # pass although nobody calls remove_logger again
+        pre = [('remove', B)] if r.random() < 0.7 else [('rb', tB, B)]
+        ops = [('log', r.choice([t for t in others if not (pre[0][0] == 'rb' and t == tB)] or others), C, m())]
     inj = [(DTOR + sa[-1], ops)]
+    b += pre
     first = ([(r.choice([1, 6, 8]), [('log', r.choice(others), C if withC else B, m())])] if r.random() < 0.15 else []) + inj
     # the destructor injection is armed in 1-3 polls in a row (it fires at most once: the sink dies once)
     b += [('poll', first)] + [('poll', inj)] * r.choice([0, 0, 1, 2])
-    Bgone = any(o[0] in ('remove', 'rb') for o in ops)
+    Bgone = bool(pre) or any(o[0] in ('remove', 'rb') for o in ops)
     tail = []
     for _ in range(r.randint(0, 4)):
         w = r.random()
